@@ -129,7 +129,7 @@ typedef struct {
 
 	short				in_table_header;
 	short				table_column_count;
-	short				table_cell_count;
+	size_t				table_cell_count;
 	char 				table_alignment[kMaxTableColumns];
 
 	short				odf_para_type;
